@@ -32,8 +32,8 @@ import (
 	"unsafe"
 
 	"github.com/lni/dragonboat/v4/config"
-	"github.com/lni/goutils/random"
 	pb "github.com/lni/dragonboat/v4/raftpb"
+	"github.com/lni/goutils/random"
 )
 
 // ---------------------------------------------------------------- log store
@@ -145,39 +145,39 @@ func newVMem() vMem {
 }
 
 type vNode struct {
-	id      uint64
-	kind    string // "V", "N", "W": how the replica is (re)started
-	up      bool
-	started bool
-	peer    Peer
-	db      *vLogDB
-	applied uint64
-	alist   []pb.Entry
-	aq      *pb.Snapshot
-	mem     vMem
-	lastRto uint64
+	id         uint64
+	kind       string // "V", "N", "W": how the replica is (re)started
+	up         bool
+	started    bool
+	peer       Peer
+	db         *vLogDB
+	applied    uint64
+	alist      []pb.Entry
+	aq         *pb.Snapshot
+	mem        vMem
+	lastRto    uint64
 	bootVoters []uint64
 }
 
 type vSim struct {
-	hold    func(pb.Message) bool // messages that stay in flight for now (scenarios)
-	t        *testing.T
-	rng      *rand.Rand
-	ids      []uint64
-	nodes    map[uint64]*vNode
-	net      map[string]pb.Message
-	et, ht   uint64
-	preVote  bool
-	checkQ   bool
-	out      *bufio.Writer
-	tid      int
-	step     int
-	nextVal  uint64
-	nextCtx  uint64
-	blocked  map[[2]uint64]bool
+	hold      func(pb.Message) bool // messages that stay in flight for now (scenarios)
+	t         *testing.T
+	rng       *rand.Rand
+	ids       []uint64
+	nodes     map[uint64]*vNode
+	net       map[string]pb.Message
+	et, ht    uint64
+	preVote   bool
+	checkQ    bool
+	out       *bufio.Writer
+	tid       int
+	step      int
+	nextVal   uint64
+	nextCtx   uint64
+	blocked   map[[2]uint64]bool
 	firstKind map[uint64]string // kind under which an id was first admitted on any replica
 	fair      bool
-	stats    map[string]int
+	stats     map[string]int
 }
 
 const (
@@ -559,19 +559,19 @@ func (s *jSnap) fix() {
 // ---------------------------------------------------------------- trace output
 
 type jEvent struct {
-	T      int     `json:"t"`
-	I      int     `json:"i"`
-	A      string  `json:"a"`
-	N      uint64  `json:"n"`
-	M      *jMsg   `json:"m,omitempty"`
-	Dup    bool    `json:"dup"`
-	Val    uint64  `json:"val"`
-	From   uint64  `json:"from"`
-	Reject bool    `json:"reject"`
-	Kind   string  `json:"kind"`
+	T      int      `json:"t"`
+	I      int      `json:"i"`
+	A      string   `json:"a"`
+	N      uint64   `json:"n"`
+	M      *jMsg    `json:"m,omitempty"`
+	Dup    bool     `json:"dup"`
+	Val    uint64   `json:"val"`
+	From   uint64   `json:"from"`
+	Reject bool     `json:"reject"`
+	Kind   string   `json:"kind"`
 	Voters []uint64 `json:"voters"`
-	Post   *jNode  `json:"post,omitempty"`
-	Panic  string  `json:"panic,omitempty"`
+	Post   *jNode   `json:"post,omitempty"`
+	Panic  string   `json:"panic,omitempty"`
 }
 
 func (s *vSim) emit(e jEvent, n *vNode) {
@@ -973,12 +973,12 @@ func (s *vSim) leaders() []*vNode {
 
 type simOpts struct {
 	scenarios bool
-	steps    int
-	maxN     int
-	chaos    int // 0..100
-	withCC   bool
-	withSnap bool
-	crash    bool
+	steps     int
+	maxN      int
+	chaos     int // 0..100
+	withCC    bool
+	withSnap  bool
+	crash     bool
 }
 
 // phase: a stretch of the schedule with a bias, so that the dangerous regions are
@@ -986,21 +986,21 @@ type simOpts struct {
 // keeps accepting proposals, a lagging follower that needs a snapshot, a replica that
 // does not apply / does not save for a while, bursts of membership changes.
 type phase struct {
-	left      int
-	isolated  uint64 // replica cut off (0 = none)
-	pairA     uint64 // a single link cut in both directions (0 = none): pairA <-> pairB
-	pairB     uint64
-	wDrop     int    // extra message loss during the phase
-	delay     bool   // messages on cut links are kept (delivered after heal) rather than lost
-	noApply   uint64 // replica whose apply worker is stalled
-	noReady   uint64 // replica whose step worker does not get to save/send
-	wPropose  int
-	wCC       int
-	wSnap     int
-	wTickOne  uint64 // replica that is ticked preferentially
-	wDeliver  int
-	wRead     int
-	wXfer     int
+	left     int
+	isolated uint64 // replica cut off (0 = none)
+	pairA    uint64 // a single link cut in both directions (0 = none): pairA <-> pairB
+	pairB    uint64
+	wDrop    int    // extra message loss during the phase
+	delay    bool   // messages on cut links are kept (delivered after heal) rather than lost
+	noApply  uint64 // replica whose apply worker is stalled
+	noReady  uint64 // replica whose step worker does not get to save/send
+	wPropose int
+	wCC      int
+	wSnap    int
+	wTickOne uint64 // replica that is ticked preferentially
+	wDeliver int
+	wRead    int
+	wXfer    int
 }
 
 func (s *vSim) newPhase(o simOpts) phase {
@@ -1440,7 +1440,9 @@ func (s *vSim) scenario4() {
 	}
 	s.settle(4, cut2, nil, only(b.id), nil)
 	// 3: l comes back, follows b, its tail is overwritten too
-	s.settle(4, nil, nil, only(b.id), func() bool { return l.peer.raft.state == follower && l.peer.raft.log.lastIndex() == b.peer.raft.log.lastIndex() })
+	s.settle(4, nil, nil, only(b.id), func() bool {
+		return l.peer.raft.state == follower && l.peer.raft.log.lastIndex() == b.peer.raft.log.lastIndex()
+	})
 	// 4: b is cut off, l is elected again
 	cut4 := func(m pb.Message) bool { return m.From == b.id || m.To == b.id }
 	s.settle(40, cut4, nil, only(l.id), func() bool { return l.peer.raft.state == leader })
@@ -1547,7 +1549,9 @@ func (s *vSim) scenario6(nextID uint64) uint64 {
 	s.propose(b, s.nextVal)
 	s.settle(4, all, nil, only(b.id), nil)
 	// l comes back and follows b: the membership change entry is overwritten
-	s.settle(4, nil, nil, only(b.id), func() bool { return l.peer.raft.state == follower && l.peer.raft.log.lastIndex() == b.peer.raft.log.lastIndex() })
+	s.settle(4, nil, nil, only(b.id), func() bool {
+		return l.peer.raft.state == follower && l.peer.raft.log.lastIndex() == b.peer.raft.log.lastIndex()
+	})
 	// b is cut off, l is elected again
 	cutb := func(m pb.Message) bool { return m.From == b.id || m.To == b.id }
 	s.settle(40, cutb, nil, only(l.id), func() bool { return l.peer.raft.state == leader })
